@@ -1,5 +1,5 @@
 SPECIFICATION Spec
-CONSTANTS NId = 3 Maxes = {3, 6} Lens = {0, 2, 3, 4, 5, 6, 7} TraitsMax = 6 ValSz = 4 PtrSz = 8 Limit = 7 CodeOrder = FALSE
+CONSTANTS NId = 2 Maxes = {0, 2, 3, 5, 6} Lens = {0, 1, 2, 3, 4, 5, 6, 7, 8, 9} TraitsMax = 6 ValSz = 4 PtrSz = 8 Limit = 9 CodeOrder = FALSE
 VIEW View
 INVARIANTS TypeOK NoBadFree NoLeak Refines CmpAgrees
 PROPERTIES SetReadsBack CopyFaithful RefuseFrame ReadOnly
